@@ -49,25 +49,38 @@ def check_token_first(ctx, V):
     ctx.ob('R18.1', 'get_type:token_first(skip_cm=True)', f'{g.mod.relpath}:{g.node.lineno}', 'get_type asks for the first token skipping whitespace and comments',
            ok, f'calls: {[src(c) for c in calls]}')
     f = repo.func('sqlparse.sql.TokenList.token_first')
-    m = f.nested.get('matcher')
     factory_env = {}
+    m = None
+    from ..astutil import local_defs
+    from ..cg import get_cg
+    cg = get_cg(ctx)
+    # the predicate handed to self._token_matching(...): a nested def, or the closure returned by a factory call
+    tm = [n for n in own_nodes(f.node) if isinstance(n, ast.Call) and is_attr(n.func, '_token_matching', 'self') and n.args]
+    cands = []
+    for c in tm:
+        a = c.args[0]
+        if isinstance(a, ast.Name):
+            if a.id in f.nested:
+                m = f.nested[a.id]
+            cands += [d for d in local_defs(f.node).get(a.id, []) if isinstance(d, ast.Call)]
+        elif isinstance(a, ast.Call):
+            cands.append(a)
     if m is None:
-        # matcher = <factory>(skip_ws, skip_cm): the closure returned by a module-level factory
-        from ..astutil import local_defs
-        from ..cg import get_cg
-        cg = get_cg(ctx)
-        for d in local_defs(f.node).get('matcher', []):
-            if isinstance(d, ast.Call):
-                for cq in cg.callees_of_call(f.qname, d):
-                    fac = repo.funcs[cq]
-                    rets_ = [r for r in own_nodes(fac.node, include_lambdas=False) if isinstance(r, ast.Return) and is_name(r.value)]
-                    if rets_ and rets_[0].value.id in fac.nested:
-                        m = fac.nested[rets_[0].value.id]
-                        for pn, a in zip(fac.params, d.args):
-                            factory_env[pn] = src(a)
+        for d in cands:
+            for cq in cg.callees_of_call(f.qname, d):
+                fac = repo.funcs[cq]
+                rets_ = [r for r in own_nodes(fac.node, include_lambdas=False) if isinstance(r, ast.Return) and is_name(r.value)]
+                if rets_ and rets_[0].value.id in fac.nested:
+                    m = fac.nested[rets_[0].value.id]
+                    for pn, a in zip(fac.params, d.args):
+                        factory_env[pn] = src(a)
+                    for k in d.keywords:
+                        factory_env[k.arg] = src(k.value)
     ctx.need(m is not None, 'TokenList.token_first no longer defines (or obtains from a factory) a matcher closure')
     rets = [n for n in own_nodes(f.node, include_lambdas=False) if isinstance(n, ast.Return)]
-    ok = len(rets) == 1 and src(rets[0].value) in ('self._token_matching(matcher)[1]',)
+    rv = rets[0].value if len(rets) == 1 else None
+    ok = isinstance(rv, ast.Subscript) and isinstance(rv.slice, ast.Constant) and rv.slice.value == 1 and len(tm) == 1 and rv.value is tm[0] \
+        and len(tm[0].args) == 1 and not tm[0].keywords
     ctx.ob('R18.1', 'token_first:uses-matcher', f'{f.mod.relpath}:{f.node.lineno}', 'token_first returns the first child accepted by the matcher (scan from index 0)', ok,
            f'returns `{src(rets[0].value) if rets else None}`')
     ev = ME.Evaluator(ctx, f.mod, f.cls)
@@ -188,6 +201,13 @@ def check_cte_comments(ctx):
     w = [s for s in a.node.body if isinstance(s, ast.While)]
     base = set(gd.facts(w[0].body[0])) if w else set()
     facts = [x for x in gd.facts(calls[0]) if x not in base]
+    # `while True: idx, tok = lookup(); if not tok: break` -- the truthiness of the looked-up token is the loop condition
+    toks = set()
+    for n in own_nodes(a.node):
+        if isinstance(n, ast.Assign) and isinstance(n.targets[0], ast.Tuple) and len(n.targets[0].elts) == 2 and isinstance(n.value, ast.Call) \
+                and isinstance(n.value.func, ast.Attribute) and n.value.func.attr == 'token_next_by' and is_name(n.targets[0].elts[1]):
+            toks.add(n.targets[0].elts[1].id)
+    facts = [x for x in facts if not (x[0] != '|' and x[1] and (x[0] in toks or any(x[0] == f'{t} is not None' for t in toks)))]
     prevv = None
     ok = len(facts) == 1 and facts[0][0] != '|' and facts[0][1] and facts[0][0].startswith('isinstance(') and facts[0][0].endswith(', sql.TokenList)')
     kw = {k.arg: src(k.value) for k in calls[0].keywords}
